@@ -30,9 +30,18 @@ const tokenBaseNs = int64(1_700_000_100) * 1e9 // multiple of the 5 minute inter
 
 type ipRange struct{ lo, hi net.IP } // 16-byte forms
 
-type rangeList struct{ rs []ipRange }
+type rangeList struct {
+	rs []ipRange
+	// probe, when set, is called on every look-up: the blocklist is consulted deep inside the server
+	// (receive path, send path, traversal node filter under refreshBucket's read lock), which makes
+	// each look-up a scheduling point at which the harness can let a datagram arrive.
+	probe atomic.Pointer[func(net.IP)]
+}
 
 func (l *rangeList) Lookup(ip net.IP) (r iplist.Range, ok bool) {
+	if f := l.probe.Load(); f != nil {
+		(*f)(ip)
+	}
 	v6 := ip.To16()
 	if v6 == nil {
 		return iplist.Range{Description: "bad IP"}, true
